@@ -72,3 +72,581 @@ Qed.
 (* reject_spec is the range test *)
 Lemma reject_spec_correct : guard_correct reject_spec.
 Proof. unfold guard_correct, reject_spec, inrangeb. intros. lia. Qed.
+
+(* ================================================================== text basics *)
+Lemma text_eqb_eq a b : text_eqb a b = true <-> a = b.
+Proof.
+  revert b. induction a as [|x a IH]; intros [|y b]; cbn [text_eqb]; split; intro H;
+    try reflexivity; try discriminate.
+  - apply andb_true_iff in H. destruct H as [H1 H2]. apply IH in H2. f_equal; [lia|assumption].
+  - inversion H; subst. rewrite Z.eqb_refl. cbn. apply IH. reflexivity.
+Qed.
+
+Lemma text_eqb_refl a : text_eqb a a = true.
+Proof. apply text_eqb_eq. reflexivity. Qed.
+
+(* ================================================================== trace store *)
+Lemma names_add_step tr vm : trace_names (add_step tr vm) = trace_names tr.
+Proof. unfold trace_names, add_step. rewrite map_map. reflexivity. Qed.
+
+Lemma lookup_add_step tr vm w :
+  lookup (add_step tr vm) w = option_map (fun l => l ++ [vm w]) (lookup tr w).
+Proof.
+  induction tr as [|[k l] tr IH]; [reflexivity|].
+  cbn [add_step map lookup fst snd]. destruct (text_eqb k w) eqn:E.
+  - apply text_eqb_eq in E. subst. reflexivity.
+  - exact IH.
+Qed.
+
+Lemma lookup_in {A} (tr : list (name * A)) w : In w (map fst tr) -> exists l, lookup tr w = Some l.
+Proof.
+  induction tr as [|[k l] tr IH]; [intros []|]. cbn [map fst In lookup].
+  destruct (text_eqb k w) eqn:E; [eauto|]. intros [H|H]; [|auto].
+  subst. rewrite text_eqb_refl in E. discriminate.
+Qed.
+
+Lemma last_opt_snoc l x : last_opt (l ++ [x]) = Some x.
+Proof.
+  unfold last_opt. destruct (l ++ [x]) eqn:E.
+  - destruct l; discriminate.
+  - rewrite <- E. rewrite last_last. reflexivity.
+Qed.
+
+Lemma trace_last_add_step tr vm w :
+  In w (trace_names tr) -> trace_last (add_step tr vm) w = Some (vm w).
+Proof.
+  intro H. unfold trace_last. rewrite lookup_add_step.
+  destruct (lookup_in tr w H) as [l ->]. cbn. apply last_opt_snoc.
+Qed.
+
+Lemma all_len_add_step tr vm n : all_len tr n -> all_len (add_step tr vm) (S n).
+Proof.
+  unfold all_len, add_step. intro H. apply Forall_map. eapply Forall_impl; [|exact H].
+  intros p Hp. cbn [fst snd]. rewrite app_length, Hp. cbn [length]. apply Nat.add_1_r.
+Qed.
+
+Lemma all_len_new ws : all_len (new_trace ws) 0.
+Proof. unfold all_len, new_trace. apply Forall_map. apply Forall_forall. reflexivity. Qed.
+
+Lemma all_len_trace_len tr n : all_len tr n -> tr <> [] -> trace_len tr = Z.of_nat n.
+Proof.
+  intros H Hne. destruct tr as [|[k l] tr]; [congruence|]. inversion H; subst. cbn in *. unfold len. lia.
+Qed.
+
+(* ================================================================== steps *)
+Section SimProofs.
+  Variable State : Type.
+  Variable stepf : State -> inputs -> State * (name -> Z).
+  Variable input_widths : list (name * Z).
+  Variable guard : Z -> Z -> bool.
+  Variable asserts : list name.
+
+  Notation sim := (sim State).
+  Notation sim_step := (sim_step State stepf input_widths guard asserts).
+  Notation run := (run State stepf input_widths guard asserts).
+  Notation accepted ins := (bad_inputs input_widths guard ins || missing_inputs input_widths ins = false).
+
+  (* the trace and inspect agree on every tracked wire *)
+  Definition agree (s : sim) : Prop :=
+    forall w, In w (trace_names (str s)) -> trace_last (str s) w = Some (inspect State s w).
+
+  Definition simulated (o : outcome) : bool := match o with Rejected => false | _ => true end.
+  (* number of cycles a sequence of calls simulated: an assertion failure is raised AFTER its cycle *)
+  Definition cycles (k : nat) (o : outcome) : nat :=
+    (k + match o with AssertFailed _ => 1 | _ => 0 end)%nat.
+
+  Lemma step_rejected s ins s' : sim_step s ins = (s', Rejected) -> s' = s.
+  Proof.
+    unfold Trace.sim_step. destruct (_ || _); [congruence|].
+    destruct (stepf (sst s) ins) as [st' vm]. destruct (failing_assert asserts vm); discriminate.
+  Qed.
+
+  Lemma step_rejected_iff s ins : snd (sim_step s ins) = Rejected <-> ~ accepted ins.
+  Proof.
+    unfold Trace.sim_step. destruct (_ || _) eqn:E.
+    - cbn. split; [intros _ H; discriminate | reflexivity].
+    - destruct (stepf (sst s) ins) as [st' vm]. cbn.
+      split; [destruct (failing_assert asserts vm); discriminate | intro H; exfalso; apply H; reflexivity].
+  Qed.
+
+  Lemma step_simulated s ins s' o : sim_step s ins = (s', o) -> simulated o = true ->
+    exists st' vm, stepf (sst s) ins = (st', vm) /\
+      s' = mkSim st' vm (add_step (str s) vm) /\
+      o = match failing_assert asserts vm with Some a => AssertFailed a | None => Done end.
+  Proof.
+    unfold Trace.sim_step. destruct (_ || _).
+    - intros H. inversion H; subst. discriminate.
+    - destruct (stepf (sst s) ins) as [st' vm]. intros H _. inversion H; subst. eauto.
+  Qed.
+
+  Lemma step_names s ins s' o : sim_step s ins = (s', o) -> trace_names (str s') = trace_names (str s).
+  Proof.
+    intro H. destruct (simulated o) eqn:E.
+    - destruct (step_simulated _ _ _ _ H E) as (st' & vm & _ & -> & _). cbn. apply names_add_step.
+    - destruct o; try discriminate. apply step_rejected in H. subst. reflexivity.
+  Qed.
+
+  (* after every step that was simulated: inspect = last trace entry *)
+  Lemma step_agree s ins s' o : sim_step s ins = (s', o) -> simulated o = true -> agree s'.
+  Proof.
+    intros H E. destruct (step_simulated _ _ _ _ H E) as (st' & vm & _ & -> & _).
+    intros w Hw. cbn in *. rewrite names_add_step in Hw. rewrite trace_last_add_step by assumption.
+    reflexivity.
+  Qed.
+
+  Lemma step_length s ins s' o n : sim_step s ins = (s', o) -> all_len (str s) n ->
+    all_len (str s') (if simulated o then S n else n).
+  Proof.
+    intros H Hn. destruct (simulated o) eqn:E.
+    - destruct (step_simulated _ _ _ _ H E) as (st' & vm & _ & -> & _). cbn. apply all_len_add_step, Hn.
+    - destruct o; try discriminate. apply step_rejected in H. subst. exact Hn.
+  Qed.
+
+  Lemma run_agree : forall inss s s' k o, run s inss = (s', k, o) ->
+    agree s \/ (0 < cycles k o)%nat -> agree s'.
+  Proof.
+    induction inss as [|ins rest IH]; intros s s' k o H Hor; cbn [Trace.run] in H.
+    - inversion H; subst. destruct Hor as [Ha|Hc]; [exact Ha|cbn in Hc; lia].
+    - destruct (sim_step s ins) as [s1 o1] eqn:E1. destruct o1.
+      + destruct (run s1 rest) as [[s2 k2] o2] eqn:E2. inversion H; subst.
+        eapply IH; [exact E2|]. left. eapply step_agree; [exact E1|reflexivity].
+      + inversion H; subst. apply step_rejected in E1. subst.
+        destruct Hor as [Ha|Hc]; [exact Ha|cbn in Hc; lia].
+      + inversion H; subst. eapply step_agree; [exact E1|reflexivity].
+  Qed.
+
+  Lemma run_length : forall inss s s' k o n, run s inss = (s', k, o) -> all_len (str s) n ->
+    all_len (str s') (n + cycles k o).
+  Proof.
+    induction inss as [|ins rest IH]; intros s s' k o n H Hn; cbn [Trace.run] in H.
+    - inversion H; subst. unfold cycles. replace (n + (0 + 0))%nat with n by lia. exact Hn.
+    - destruct (sim_step s ins) as [s1 o1] eqn:E1. pose proof (step_length _ _ _ _ _ E1 Hn) as H1.
+      destruct o1; cbn in H1.
+      + destruct (run s1 rest) as [[s2 k2] o2] eqn:E2. inversion H; subst.
+        pose proof (IH _ _ _ _ _ E2 H1) as H2. unfold cycles in *.
+        replace (n + (S k2 + match o with AssertFailed _ => 1 | _ => 0 end))%nat
+          with (S n + (k2 + match o with AssertFailed _ => 1 | _ => 0 end))%nat by lia. exact H2.
+      + inversion H; subst. unfold cycles. replace (n + (0 + 0))%nat with n by lia. exact H1.
+      + inversion H; subst. unfold cycles. replace (n + (0 + 1))%nat with (S n) by lia. exact H1.
+  Qed.
+
+  Lemma run_names : forall inss s s' k o, run s inss = (s', k, o) ->
+    trace_names (str s') = trace_names (str s).
+  Proof.
+    induction inss as [|ins rest IH]; intros s s' k o H; cbn [Trace.run] in H.
+    - inversion H; subst. reflexivity.
+    - destruct (sim_step s ins) as [s1 o1] eqn:E1. pose proof (step_names _ _ _ _ E1) as H1.
+      destruct o1.
+      + destruct (run s1 rest) as [[s2 k2] o2] eqn:E2. inversion H; subst.
+        rewrite (IH _ _ _ _ E2). exact H1.
+      + inversion H; subst. exact H1.
+      + inversion H; subst. exact H1.
+  Qed.
+
+  (* k calls returned normally and every call was accepted: all were Done *)
+  Lemma run_all_done : forall inss s s' k o, run s inss = (s', k, o) -> o = Done -> k = length inss.
+  Proof.
+    induction inss as [|ins rest IH]; intros s s' k o H Ho; cbn [Trace.run] in H.
+    - inversion H; subst. reflexivity.
+    - destruct (sim_step s ins) as [s1 o1] eqn:E1. destruct o1.
+      + destruct (run s1 rest) as [[s2 k2] o2] eqn:E2. inversion H; subst. cbn. f_equal. eapply IH; eauto.
+      + inversion H; subst. discriminate.
+      + inversion H; subst. discriminate.
+  Qed.
+
+  Lemma step_inspect_last : forall s ins s' o w,
+    sim_step s ins = (s', o) -> o <> Rejected -> In w (trace_names (str s)) ->
+    trace_last (str s') w = Some (inspect State s' w).
+  Proof.
+    intros s ins s' o w H Ho Hw. apply (step_agree s ins s' o H).
+    - destruct o; try reflexivity. congruence.
+    - rewrite (step_names s ins s' o H). exact Hw.
+  Qed.
+
+  Lemma run_inspect_last : forall inss s s' k o w,
+    run s inss = (s', k, o) -> (0 < cycles k o)%nat -> In w (trace_names (str s)) ->
+    trace_last (str s') w = Some (inspect State s' w).
+  Proof.
+    intros inss s s' k o w H Hc Hw.
+    apply (run_agree inss s s' k o H (or_intror Hc)).
+    rewrite (run_names inss s s' k o H). exact Hw.
+  Qed.
+
+  Lemma run_length_all_done : forall inss ws st v0 s' k,
+    run (mkSim st v0 (new_trace ws)) inss = (s', k, Done) ->
+    k = length inss /\ all_len (str s') (length inss).
+  Proof.
+    intros inss ws st v0 s' k H.
+    pose proof (run_all_done _ _ _ _ _ H eq_refl) as Hk.
+    split; [exact Hk|].
+    pose proof (run_length _ _ _ _ _ O H (all_len_new ws)) as Hl.
+    unfold cycles in Hl. cbn in Hl. rewrite Hk in Hl. rewrite Nat.add_0_r in Hl. exact Hl.
+  Qed.
+
+  (* ---------------------------------------------------------------- rtl_assert *)
+  Notation pure_vals := (pure_vals State stepf).
+  Notation first_assert_failure := (first_assert_failure asserts).
+
+  Lemma run_first_assert : forall inss s s' k o,
+    Forall (fun ins => accepted ins) inss -> run s inss = (s', k, o) ->
+    match first_assert_failure (pure_vals (sst s) inss) with
+    | Some (t, a) => k = t /\ o = AssertFailed a
+    | None => k = length inss /\ o = Done
+    end.
+  Proof.
+    induction inss as [|ins rest IH]; intros s s' k o Hacc H; cbn [Trace.run] in H.
+    - inversion H; subst. cbn. auto.
+    - inversion Hacc as [|? ? Hins Hrest]; subst.
+      destruct (sim_step s ins) as [s1 o1] eqn:E1.
+      assert (Hsim : simulated o1 = true).
+      { destruct o1; try reflexivity. exfalso.
+        apply (proj1 (step_rejected_iff s ins)); [rewrite E1; reflexivity | exact Hins]. }
+      destruct (step_simulated _ _ _ _ E1 Hsim) as (st' & vm & Hst & Hs1 & Ho1).
+      cbn [Trace.pure_vals Trace.first_assert_failure]. rewrite Hst.
+      cbn [Trace.first_assert_failure]. destruct (failing_assert asserts vm) as [a|] eqn:Ef.
+      + subst o1. inversion H; subst. auto.
+      + subst o1. destruct (run s1 rest) as [[s2 k2] o2] eqn:E2. inversion H; subst.
+        specialize (IH _ _ _ _ Hrest E2). cbn [sst] in IH.
+        destruct (Trace.first_assert_failure asserts (pure_vals st' rest)) as [[t a]|].
+        * destruct IH as [-> ->]. auto.
+        * destruct IH as [-> ->]. auto.
+  Qed.
+
+  (* declarative reading of first_assert_failure *)
+  Lemma failing_assert_none vm : failing_assert asserts vm = None <-> forall a, In a asserts -> vm a <> 0.
+  Proof.
+    unfold failing_assert. split.
+    - intros H a Ha. pose proof (find_none _ _ H a Ha) as H1. cbn in H1. lia.
+    - intro H. destruct (find _ asserts) as [a|] eqn:E; [|reflexivity].
+      apply find_some in E. destruct E as [Ha Hz]. exfalso. apply (H a Ha). lia.
+  Qed.
+
+  Lemma failing_assert_some vm a : failing_assert asserts vm = Some a -> In a asserts /\ vm a = 0.
+  Proof. unfold failing_assert. intro H. apply find_some in H. destruct H. split; [assumption|lia]. Qed.
+
+  Lemma first_assert_failure_spec : forall vms t a,
+    first_assert_failure vms = Some (t, a) <->
+    (exists vm, nth_error vms t = Some vm /\ failing_assert asserts vm = Some a) /\
+    (forall t' vm', (t' < t)%nat -> nth_error vms t' = Some vm' -> failing_assert asserts vm' = None).
+  Proof.
+    induction vms as [|vm rest IH]; intros t a; cbn [Trace.first_assert_failure].
+    - split; [discriminate|]. intros [[vm [H _]] _]. destruct t; discriminate.
+    - destruct (failing_assert asserts vm) as [b|] eqn:Ef.
+      + split.
+        * intro H. inversion H; subst. split; [exists vm; auto|]. intros t' vm' Hlt. lia.
+        * intros [[vm0 [Hn Hf]] Hbefore]. destruct t.
+          -- cbn in Hn. inversion Hn; subst. congruence.
+          -- specialize (Hbefore O vm ltac:(lia) eq_refl). congruence.
+      + destruct (Trace.first_assert_failure asserts rest) as [[t0 a0]|] eqn:Er.
+        * split.
+          -- intro H. inversion H; subst. destruct (proj1 (IH t0 a) eq_refl) as [[vm0 [Hn Hf]] Hb].
+             split; [exists vm0; auto|]. intros [|t'] vm' Hlt Hn'.
+             ++ cbn in Hn'. inversion Hn'; subst. exact Ef.
+             ++ cbn in Hn'. eapply Hb; [|exact Hn']. lia.
+          -- intros [[vm0 [Hn Hf]] Hb]. destruct t; [cbn in Hn; inversion Hn; subst; congruence|].
+             cbn in Hn. assert (Hr : Some (t0, a0) = Some (t, a)).
+             { apply IH. split; [eauto|]. intros t' vm' Hlt Hn'. apply (Hb (S t') vm'); [lia|exact Hn']. }
+             inversion Hr; subst. reflexivity.
+        * split; [discriminate|]. intros [[vm0 [Hn Hf]] Hb]. destruct t; [cbn in Hn; inversion Hn; subst; congruence|].
+          cbn in Hn. assert (Hr : None = Some (t, a)).
+          { apply IH. split; [eauto|]. intros t' vm' Hlt Hn'. apply (Hb (S t') vm'); [lia|exact Hn']. }
+          discriminate.
+  Qed.
+
+End SimProofs.
+
+(* ================================================================== step_multiple *)
+Section StepMultiple.
+  Variable State : Type.
+  Variable stepf : State -> inputs -> State * (name -> Z).
+  Variable input_widths : list (name * Z).
+  Variable guard : Z -> Z -> bool.
+  Variable asserts : list name.
+  Variable provided : list (name * list Z).
+  Variable expected : list (name * list (option Z)).
+
+  Notation sim := (sim State).
+  Notation sim_step := (sim_step State stepf input_widths guard asserts).
+  Notation run := (run State stepf input_widths guard asserts).
+  Notation sm_loop := (sm_loop State stepf input_widths guard asserts provided expected).
+  Notation check := (check_expected State expected).
+
+  (* the objects obtained by calling step once per element (meaningful while every call returns) *)
+  Fixpoint states (s : sim) (inss : list inputs) : list sim :=
+    match inss with
+    | [] => []
+    | ins :: r => let s1 := fst (sim_step s ins) in s1 :: states s1 r
+    end.
+
+  (* all mismatching expected outputs of the steps idx, in step order *)
+  Definition mismatches (s : sim) (idx : list nat) : list (failure) :=
+    flat_map (fun p => check (snd p) (fst p))
+             (combine idx (states s (map (inputs_at provided) idx))).
+
+  Lemma check_in s i f :
+    In f (check s i) <->
+    exists w l e, In (w, l) expected /\ nth i l None = Some e /\ e <> inspect State s w
+                  /\ f = (i, w, e, inspect State s w).
+  Proof.
+    unfold Trace.check_expected. rewrite in_flat_map. split.
+    - intros [[w l] [Hin Hf]]. cbn [fst snd] in Hf. destruct (nth i l None) as [e|] eqn:En; [|destruct Hf].
+      destruct (e =? inspect State s w) eqn:Ee; [destruct Hf|]. destruct Hf as [Hf|[]]. subst f.
+      exists w, l, e. repeat split; try assumption. lia.
+    - intros (w & l & e & Hin & Hn & Hne & ->). exists (w, l). split; [assumption|]. cbn [fst snd].
+      rewrite Hn. destruct (e =? inspect State s w) eqn:Ee; [lia|]. left. reflexivity.
+  Qed.
+
+  (* no stop_after_first_error: all steps are taken, every mismatch is collected *)
+  Lemma sm_loop_all : forall idx s failed s',
+    run s (map (inputs_at provided) idx) = (s', length idx, Done) ->
+    sm_loop false s idx failed = SmFinished s' (failed ++ mismatches s idx).
+  Proof.
+    induction idx as [|i rest IH]; intros s failed s' H; cbn [Trace.run map] in H.
+    - inversion H; subst. unfold mismatches. cbn. rewrite app_nil_r. reflexivity.
+    - cbn [Trace.sm_loop]. destruct (sim_step s (inputs_at provided i)) as [s1 o1] eqn:E1.
+      destruct o1; [|inversion H|inversion H].
+      destruct (run s1 (map (inputs_at provided) rest)) as [[s2 k2] o2] eqn:E2.
+      inversion H; subst. cbn [andb]. rewrite (IH s1 _ s' E2).
+      unfold mismatches. cbn [map states combine flat_map fst snd]. rewrite E1. cbn [fst].
+      rewrite <- app_assoc. reflexivity.
+  Qed.
+
+  (* a raising step ends step_multiple at the same object, with nothing reported *)
+  Lemma sm_loop_raises : forall idx s failed s' k o,
+    run s (map (inputs_at provided) idx) = (s', k, o) -> o <> Done ->
+    sm_loop false s idx failed = SmRaised s' (nth k idx O) o.
+  Proof.
+    induction idx as [|i rest IH]; intros s failed s' k o H Ho; cbn [Trace.run map] in H.
+    - inversion H; subst. congruence.
+    - cbn [Trace.sm_loop]. destruct (sim_step s (inputs_at provided i)) as [s1 o1] eqn:E1.
+      destruct o1.
+      + destruct (run s1 (map (inputs_at provided) rest)) as [[s2 k2] o2] eqn:E2.
+        inversion H; subst. cbn [andb nth]. eapply IH; eauto.
+      + inversion H; subst. reflexivity.
+      + inversion H; subst. reflexivity.
+  Qed.
+
+  (* stop_after_first_error: the loop ends after the first step that has a mismatch *)
+  Fixpoint stop_result (s : sim) (ps : list (nat * sim)) : sim * list failure :=
+    match ps with
+    | [] => (s, [])
+    | (i, si) :: r => match check si i with
+                      | [] => stop_result si r
+                      | f => (si, f)
+                      end
+    end.
+
+  Lemma sm_loop_stop : forall idx s s',
+    run s (map (inputs_at provided) idx) = (s', length idx, Done) ->
+    sm_loop true s idx [] =
+      let r := stop_result s (combine idx (states s (map (inputs_at provided) idx))) in
+      SmFinished (fst r) (snd r).
+  Proof.
+    induction idx as [|i rest IH]; intros s s' H; cbn [Trace.run map] in H.
+    - reflexivity.
+    - cbn [Trace.sm_loop]. destruct (sim_step s (inputs_at provided i)) as [s1 o1] eqn:E1.
+      destruct o1; [|inversion H|inversion H].
+      destruct (run s1 (map (inputs_at provided) rest)) as [[s2 k2] o2] eqn:E2.
+      inversion H; subst. cbn [map states combine stop_result]. rewrite E1. cbn [fst app andb].
+      destruct (check s1 i) as [|f fs] eqn:Ec.
+      + cbn [is_nil negb]. apply (IH s1 s' E2).
+      + cbn [is_nil negb]. reflexivity.
+  Qed.
+
+  (* the states are the stepwise ones *)
+  Lemma states_length s inss : length (states s inss) = length inss.
+  Proof. revert s. induction inss; intro s; cbn; auto. Qed.
+
+  Lemma last_cons {B} (x : B) l d : last (x :: l) d = last l x.
+  Proof.
+    revert x d. induction l as [|y t IH]; intros x d; [reflexivity|].
+    change (last (x :: y :: t) d) with (last (y :: t) d). rewrite (IH y d), (IH y x). reflexivity.
+  Qed.
+
+  Lemma states_run : forall inss s s', run s inss = (s', length inss, Done) ->
+    last (states s inss) s = s'.
+  Proof.
+    induction inss as [|ins rest IH]; intros s s' H; cbn [Trace.run] in H.
+    - inversion H; subst. reflexivity.
+    - destruct (sim_step s ins) as [s1 o1] eqn:E1.
+      destruct o1; [|inversion H|inversion H].
+      destruct (run s1 rest) as [[s2 k2] o2] eqn:E2. inversion H; subst.
+      cbn [states]. rewrite E1. cbn [fst]. rewrite last_cons. apply IH. exact E2.
+  Qed.
+
+End StepMultiple.
+
+(* ================================================================== report order *)
+Section SortProofs.
+  Context {A : Type}.
+  Variable leb : A -> A -> bool.
+  Hypothesis leb_total : forall a b, leb a b = false -> leb b a = true.
+
+  Lemma insert_perm x l : Permutation (insert leb x l) (x :: l).
+  Proof.
+    induction l as [|y t IH]; cbn [insert]; [reflexivity|].
+    destruct (leb x y); [reflexivity|]. rewrite IH. apply perm_swap.
+  Qed.
+
+  Lemma isort_perm l : Permutation (isort leb l) l.
+  Proof.
+    induction l as [|x t IH]; cbn [isort fold_right]; [reflexivity|].
+    fold (isort leb t). rewrite insert_perm. constructor. exact IH.
+  Qed.
+
+  Lemma insert_sorted x l : Sorted (fun a b => leb a b = true) l ->
+    Sorted (fun a b => leb a b = true) (insert leb x l).
+  Proof.
+    induction l as [|y t IH]; intro Hs; cbn [insert].
+    - repeat constructor.
+    - destruct (leb x y) eqn:E.
+      + constructor; [exact Hs|]. constructor. exact E.
+      + inversion Hs as [|? ? Hst Hhd]; subst. constructor; [apply IH, Hst|].
+        destruct t as [|z t']; cbn [insert].
+        * constructor. apply leb_total, E.
+        * destruct (leb x z); constructor; [apply leb_total, E|].
+          inversion Hhd; subst. assumption.
+  Qed.
+
+  Lemma isort_sorted l : Sorted (fun a b => leb a b = true) (isort leb l).
+  Proof.
+    induction l as [|x t IH]; cbn [isort fold_right]; [constructor|].
+    apply insert_sorted. exact IH.
+  Qed.
+End SortProofs.
+
+Lemma text_cmp_antisym a b : text_cmp b a = CompOpp (text_cmp a b).
+Proof.
+  revert b. induction a as [|x a IH]; intros [|y b]; cbn [text_cmp]; try reflexivity.
+  rewrite (Z.compare_antisym x y). destruct (x ?= y); cbn [CompOpp]; auto.
+Qed.
+
+Lemma chunk_cmp_antisym a b : chunk_cmp b a = CompOpp (chunk_cmp a b).
+Proof.
+  destruct a, b; cbn [chunk_cmp]; try reflexivity.
+  - apply text_cmp_antisym.
+  - apply Z.compare_antisym.
+Qed.
+
+Lemma chunks_cmp_antisym a b : chunks_cmp b a = CompOpp (chunks_cmp a b).
+Proof.
+  revert b. induction a as [|x a IH]; intros [|y b]; cbn [chunks_cmp]; try reflexivity.
+  rewrite (chunk_cmp_antisym x y). destruct (chunk_cmp x y); cbn [CompOpp]; auto.
+Qed.
+
+Lemma failure_leb_total f g : failure_leb f g = false -> failure_leb g f = true.
+Proof.
+  unfold failure_leb, failure_cmp. destruct f as [[[i n] e] a], g as [[[j m] e'] a'].
+  rewrite (Nat.compare_antisym i j). rewrite (chunks_cmp_antisym (natkey n) (natkey m)).
+  destruct (Nat.compare i j); cbn [CompOpp]; try discriminate; try reflexivity.
+  destruct (chunks_cmp (natkey n) (natkey m)); cbn [CompOpp]; try discriminate; reflexivity.
+Qed.
+
+Lemma report_perm failed : Permutation (report failed) failed.
+Proof. apply isort_perm. Qed.
+
+Lemma report_sorted failed : Sorted (fun f g => failure_leb f g = true) (report failed).
+Proof. apply isort_sorted. exact failure_leb_total. Qed.
+
+(* ================================================================== step_multiple, top level *)
+Section StepMultipleTop.
+  Variable State : Type.
+  Variable stepf : State -> inputs -> State * (name -> Z).
+  Variable input_widths : list (name * Z).
+  Variable guard : Z -> Z -> bool.
+  Variable asserts : list name.
+
+  Notation run := (run State stepf input_widths guard asserts).
+  Notation step_multiple := (step_multiple State stepf input_widths guard asserts).
+
+  (* the number of steps taken when the prologue raises nothing *)
+  Definition nsteps_of (provided : list (name * list Z)) (nsteps : option Z) : Z :=
+    match nsteps with
+    | Some m => if m =? 0 then max_len provided else m
+    | None => max_len provided
+    end.
+
+  Lemma existsb_false_forall {A} (f : A -> bool) l : existsb f l = false -> Forall (fun x => f x = false) l.
+  Proof.
+    intro H. apply Forall_forall. intros x Hx. destruct (f x) eqn:E; [|reflexivity].
+    assert (existsb f l = true) by (apply existsb_exists; eauto). congruence.
+  Qed.
+
+  Lemma sm_nsteps_ok {A} provided (expected : list (name * list A)) nsteps n :
+    sm_nsteps provided expected nsteps = inr n ->
+    n = nsteps_of provided nsteps /\ 1 <= n /\
+    Forall (fun p => n <= len (snd p)) provided /\ Forall (fun p => n <= len (snd p)) expected.
+  Proof.
+    unfold sm_nsteps, nsteps_of, truthy. intro H.
+    destruct (negb _ && _) eqn:E0; [discriminate|].
+    match type of H with (match ?r with _ => _ end) = _ => destruct r as [e|m] eqn:Er end; [discriminate|].
+    destruct (m <? 1) eqn:E1; [discriminate|].
+    destruct (existsb _ provided) eqn:E2; [discriminate|].
+    destruct (existsb _ expected) eqn:E3; [discriminate|].
+    inversion H; subst m. apply existsb_false_forall in E2. apply existsb_false_forall in E3.
+    assert (Hp : Forall (fun p : name * list Z => n <= len (snd p)) provided)
+      by (eapply Forall_impl; [|exact E2]; cbn; intros; lia).
+    assert (He : Forall (fun p : name * list A => n <= len (snd p)) expected)
+      by (eapply Forall_impl; [|exact E3]; cbn; intros; lia).
+    split; [|split; [lia|split; assumption]].
+    destruct (0 <? len provided) eqn:Ep.
+    - destruct nsteps as [k|].
+      + destruct (k =? 0) eqn:Ek; cbn [negb] in Er.
+        * inversion Er. reflexivity.
+        * destruct (k >? max_len provided); inversion Er. reflexivity.
+      + inversion Er. reflexivity.
+    - destruct nsteps as [k|]; [|discriminate]. inversion Er; subst.
+      destruct (n =? 0) eqn:Ek; [lia|reflexivity].
+  Qed.
+
+  Lemma step_multiple_all provided expected nsteps s n s' :
+    sm_nsteps provided expected nsteps = inr n ->
+    run s (map (inputs_at provided) (seq 0 (Z.to_nat n))) = (s', Z.to_nat n, Done) ->
+    step_multiple provided expected nsteps false s =
+      SmFinished s' (mismatches State stepf input_widths guard asserts provided expected s (seq 0 (Z.to_nat n))).
+  Proof.
+    intros Hn Hrun. unfold Trace.step_multiple. rewrite Hn.
+    erewrite sm_loop_all; [reflexivity|]. rewrite seq_length. exact Hrun.
+  Qed.
+
+  Lemma run_raise_index : forall inss s s' k o, run s inss = (s', k, o) -> o <> Done -> (k < length inss)%nat.
+  Proof.
+    induction inss as [|ins rest IH]; intros s s' k o H Ho; cbn [Trace.run] in H.
+    - inversion H; subst. congruence.
+    - destruct (Trace.sim_step State stepf input_widths guard asserts s ins) as [s1 o1].
+      destruct o1.
+      + destruct (run s1 rest) as [[s2 k2] o2] eqn:E2. inversion H; subst. cbn [length].
+        apply -> Nat.succ_lt_mono. eapply IH; eauto.
+      + inversion H; subst. cbn. lia.
+      + inversion H; subst. cbn. lia.
+  Qed.
+
+  Lemma step_multiple_raises provided expected nsteps s n s' k o :
+    sm_nsteps provided expected nsteps = inr n ->
+    run s (map (inputs_at provided) (seq 0 (Z.to_nat n))) = (s', k, o) -> o <> Done ->
+    step_multiple provided expected nsteps false s = SmRaised s' k o.
+  Proof.
+    intros Hn Hrun Ho. unfold Trace.step_multiple. rewrite Hn.
+    erewrite sm_loop_raises; [|exact Hrun|exact Ho].
+    f_equal. pose proof (run_raise_index _ _ _ _ _ Hrun Ho) as Hk.
+    rewrite map_length, seq_length in Hk. rewrite seq_nth by exact Hk. reflexivity.
+  Qed.
+
+  Lemma step_multiple_stop provided expected nsteps s n s' :
+    sm_nsteps provided expected nsteps = inr n ->
+    run s (map (inputs_at provided) (seq 0 (Z.to_nat n))) = (s', Z.to_nat n, Done) ->
+    step_multiple provided expected nsteps true s =
+      let idx := seq 0 (Z.to_nat n) in
+      let r := stop_result State expected s
+                 (combine idx (states State stepf input_widths guard asserts s (map (inputs_at provided) idx))) in
+      SmFinished (fst r) (snd r).
+  Proof.
+    intros Hn Hrun. unfold Trace.step_multiple. rewrite Hn.
+    erewrite sm_loop_stop; [reflexivity|]. rewrite seq_length. exact Hrun.
+  Qed.
+
+  Lemma step_multiple_prologue_error provided (expected : list (name * list (option Z))) nsteps stop s e :
+    sm_nsteps provided expected nsteps = inl e ->
+    step_multiple provided expected nsteps stop s = SmError e.
+  Proof. intro H. unfold Trace.step_multiple. rewrite H. reflexivity. Qed.
+End StepMultipleTop.
